@@ -432,13 +432,20 @@ def rule_unexpected_keys_only_formatted(model: Model, rule_id: str = 'C08-R16') 
     """An unexpected key is any hashable the input used (YAML and Python mappings have int / None / tuple keys): the renderer
     formats it, and hands it to no routine that expects text."""
     r = RuleResult(rule_id, 'ProductErrorNode.print_error passes an unexpected key to nothing but formatting', floor=1)
-    f = model.func('pane.errors.ProductErrorNode.print_error')
-    r.analysed.add(f.qualname)
+    f0 = model.func('pane.errors.ProductErrorNode.print_error')
     allowed = {'str', 'repr', 'print', 'isinstance', 'type', 'format', 'hash', 'id'}
-    loops = [x for x in ast.walk(f.node) if isinstance(x, ast.For) and isinstance(x.target, ast.Name) and re.search(r'\bextra\b', unparse(x.iter))]
-    if not loops:
-        raise AnalysisError(f"{f.loc()}: print_error has no loop over the unexpected fields")
-    for lp in loops:
+    # the loop over the unexpected fields: in print_error itself, or in a method / helper of the module it was moved to
+    found: t.List[t.Tuple[FuncInfo, ast.For]] = []
+    for q, g in model.functions.items():
+        if g.module.name == 'pane.errors' and isinstance(g.node, ast.FunctionDef) and (g.cls is None or g.cls.name == 'ProductErrorNode'):
+            for x in walk_no_nested(g.node):
+                if isinstance(x, ast.For) and isinstance(x.target, ast.Name) and re.search(r'\.extra\b', unparse(x.iter)) \
+                        and any(isinstance(c, ast.Call) and isinstance(c.func, ast.Name) and c.func.id == 'print' for c in ast.walk(x)):
+                    found.append((g, x))
+    if not found:
+        raise AnalysisError(f"{f0.loc()}: no loop that prints the unexpected fields found in pane.errors")
+    for (f, lp) in found:
+        r.analysed.add(f.qualname)
         var = lp.target.id      # type: ignore[union-attr]
         r.instances += 1
         bad = None
@@ -454,4 +461,78 @@ def rule_unexpected_keys_only_formatted(model: Model, rule_id: str = 'C08-R16') 
             r.fail(f.qualname, f"unexpected key passed to {unparse(bad.func)[:40]}", f.loc(bad),
                    "the key may be an int / None / tuple (YAML, Python dicts): a text routine (difflib, str methods ...) raises on it, so "
                    "rendering the error raises instead of naming the field")
+    return r
+
+
+# ---------------------------------------------------------------------------- C05 / C16 / C19: a dataclass reads what it writes
+
+
+def rule_filled_fields_accepted_back(model: Model, rule_id: str = 'C05-R16') -> RuleResult:
+    """A library dataclass whose ``__post_init__`` fills one field from another (``object.__setattr__(self, 'n', ...)``) writes both
+    on output and hands both to the constructor on copy / replace: it must not refuse an instance merely because both are given."""
+    r = RuleResult(rule_id, "no __post_init__ of a library dataclass refuses the combination of fields it fills in itself", floor=1)
+    for q, cls in model.classes.items():
+        if q == 'pane.classes.PaneBase' or not model.is_subclass(q, 'pane.classes.PaneBase'):
+            continue
+        f = model.functions.get(f'{q}.__post_init__')
+        if f is None or not isinstance(f.node, ast.FunctionDef) or not f.params:
+            continue
+        self_ = f.params[0]
+        filled = set()
+        for c in ast.walk(f.node):
+            if isinstance(c, ast.Call) and unparse(c.func) in ('object.__setattr__', 'setattr') and len(c.args) == 3 \
+                    and isinstance(c.args[0], ast.Name) and c.args[0].id == self_ and isinstance(c.args[1], ast.Constant):
+                filled.add(c.args[1].value)
+            if isinstance(c, (ast.Assign, ast.AnnAssign)):
+                for tg in (c.targets if isinstance(c, ast.Assign) else [c.target]):
+                    if isinstance(tg, ast.Attribute) and isinstance(tg.value, ast.Name) and tg.value.id == self_:
+                        filled.add(tg.attr)
+        if not filled:
+            continue
+        r.analysed.add(f.qualname)
+
+        class _Given(ast.NodeTransformer):
+            """the tests of `self.<field> is None` with every field given"""
+            def visit_Compare(self, node: ast.Compare) -> ast.AST:
+                if len(node.ops) == 1 and isinstance(node.ops[0], (ast.Is, ast.IsNot)) and isinstance(node.comparators[0], ast.Constant) \
+                        and node.comparators[0].value is None and isinstance(node.left, ast.Attribute) \
+                        and isinstance(node.left.value, ast.Name) and node.left.value.id == self_:
+                    return ast.copy_location(ast.Constant(value=isinstance(node.ops[0], ast.IsNot)), node)
+                return self.generic_visit(node)
+
+            def visit_Name(self, node: ast.Name) -> ast.AST:
+                vals = [v for v in _local_values(f.node, node.id)]
+                if isinstance(node.ctx, ast.Load) and len(vals) == 1:
+                    import copy
+                    return self.visit(copy.deepcopy(vals[0]))
+                return node
+
+        def walk_ifs(body: t.Sequence[ast.stmt]) -> None:
+            for st in body:
+                if isinstance(st, ast.If):
+                    if any(isinstance(x, ast.Raise) for x in st.body) and not any(isinstance(x, (ast.If, ast.For, ast.While, ast.Try)) for x in st.body):
+                        r.instances += 1
+                        import copy
+                        test = ast.fix_missing_locations(ast.Expression(body=_Given().visit(copy.deepcopy(st.test))))
+                        names = {x.id for x in ast.walk(test) if isinstance(x, ast.Name)} - {'sum', 'any', 'all', 'len'}
+                        attrs = [x for x in ast.walk(test) if isinstance(x, ast.Attribute)]
+                        verdict = None
+                        if not names and not attrs and not any(isinstance(x, (ast.Call,)) and not (isinstance(x.func, ast.Name) and x.func.id in ('sum', 'any', 'all', 'len'))
+                                                               for x in ast.walk(test)):
+                            try:
+                                verdict = bool(eval(compile(test, '<guard>', 'eval'), {'__builtins__': {}, 'sum': sum, 'any': any, 'all': all, 'len': len}))
+                            except Exception:
+                                verdict = None
+                        r.sample({'class': q, 'guard': unparse(st.test)[:60], 'raises when every field is given': verdict})
+                        if verdict:
+                            r.fail(q, f"__post_init__ refuses {sorted(filled)} given together", f.loc(st),
+                                   "the instance fills these fields in itself and writes them all: its own output (and the arguments copy / "
+                                   "replace pass on) is refused, so from_data(into_data(x)) and copy.copy(x) raise for every instance")
+                        else:
+                            r.ok()
+                    walk_ifs(st.body)
+                    walk_ifs(st.orelse)
+        walk_ifs(f.node.body)
+    if not r.instances:
+        raise AnalysisError("no library dataclass with a filling __post_init__ found (pane.types.Range)")
     return r
